@@ -30,6 +30,7 @@ var (
 	flagRecTrace = flag.String("rectrace", "", "internal: record history -hist into this directory and exit (run under strace)")
 	flagHist     = flag.Int("hist", 0, "internal: history index for -rectrace")
 	flagNoTrace  = flag.Bool("nostrace", false, "do not use strace even if available")
+	flagBudget   = flag.Int("budget", 0, "debug: override the internal deadline (seconds)")
 	flagLimit    = flag.Int("limit", 0, "debug: evaluate only the first N crash states")
 	flagWorkers  = flag.Int("workers", 16, "number of worker subprocesses")
 )
@@ -89,11 +90,11 @@ func main() {
 
 	r := vcommon.Start("C27", "fault_enumeration")
 	r.Rule = "crash states = for every history: every prefix of the write log; the next write torn at every byte; the next appending write " +
-		"zero-filled from every byte; every non-suffix subset of the last 3 writes lost. distinct = (history, kind of state, per-file shape " +
+		"zero-filled from every byte (quick: every byte below 128, then every 4th); every non-suffix subset of the last 3 writes lost. distinct = (history, kind of state, per-file shape " +
 		"[header, complete parts, kind of tail, duration field], status of every playback request)"
 	hs := histories(r.Thorough())
 
-	base, err := os.MkdirTemp("", "c27")
+	base, err := reclib.TempDir("c27")
 	if err != nil {
 		vcommon.Harness("tempdir: %v", err)
 	}
@@ -313,7 +314,7 @@ func main() {
 			r.Sample(map[string]any{"history": h.Name, "write_log": l})
 		}
 		corpus.Hists = append(corpus.Hists, HistCorpus{History: rec.History, Ops: fine, Final: final, Segs: segs})
-		corpus.States = append(corpus.States, enumerate(len(corpus.Hists)-1, fine)...)
+		corpus.States = append(corpus.States, enumerate(len(corpus.Hists)-1, fine, r.Thorough())...)
 	}
 
 	// ---- the crash states, through the real playback server, in worker subprocesses
@@ -334,16 +335,27 @@ func main() {
 	}
 	deaths := 0
 	reqs := 0
-	deadline := time.Now().Add(40 * time.Second)
-	if r.Thorough() {
-		deadline = time.Now().Add(12 * time.Minute)
-	}
-	_ = deadline
+	// deterministic spreading order: a truncated run (deadline) still covers every kind of state
 	nStates := len(corpus.States)
 	if *flagLimit > 0 && *flagLimit < nStates {
 		nStates = *flagLimit
 	}
-	err = reclib.RunPool(reclib.PoolOpts{Workers: *flagWorkers, Arg: base, CaseTimeout: 60 * time.Second}, nStates, func(cr reclib.CaseResult) {
+	stride := 7919
+	for gcd(stride, len(corpus.States)) != 1 {
+		stride++
+	}
+	total := len(corpus.States)
+	deadline := time.Now().Add(150 * time.Second)
+	if r.Thorough() {
+		deadline = time.Now().Add(13 * time.Minute)
+	}
+	if *flagBudget > 0 {
+		deadline = time.Now().Add(time.Duration(*flagBudget) * time.Second)
+	}
+	var handed int
+	handed, err = reclib.RunPool(reclib.PoolOpts{Workers: *flagWorkers, Arg: base, CaseTimeout: 60 * time.Second,
+		ExtraArgs: []string{"-tier", r.Tier}, Deadline: deadline,
+		Order: func(k int) int { return int(int64(k) * int64(stride) % int64(total)) }}, nStates, func(cr reclib.CaseResult) {
 		r.Eval(1)
 		st := corpus.States[cr.Index]
 		if cr.Death != nil {
@@ -389,7 +401,8 @@ func main() {
 	r.Set("worker_deaths", deaths)
 	r.Set("histories_with_syscall_trace", straceUsed)
 	r.Set("syscalls_matched_with_inferred_log", syscallsMatched)
-	r.Exhaustive = true
+	r.Exhaustive = handed == len(corpus.States)
+	r.Set("bound_completed", fmt.Sprintf("%d of %d crash states", handed, len(corpus.States)))
 	how := "write log reconstructed from byte-exact directory snapshots taken at a fence after every unit (real Stream, real Recorder, real os.File); "
 	if straceUsed == len(corpus.Hists) {
 		how += "write boundaries taken from an strace of the same history and cross-checked with the snapshot log"
@@ -431,7 +444,18 @@ func workerMain() {
 		fmt.Fprintln(os.Stderr, "worker: server:", err)
 		os.Exit(3)
 	}
+	ev.tightFormats = []string{"fmp4"}
+	if f := flag.Lookup("tier"); f != nil && f.Value.String() == "thorough" {
+		ev.tightFormats = []string{"fmp4", "mp4"}
+	}
 	reclib.WorkerMain(func(w *reclib.WorkerCtx, i int) any {
 		return ev.eval(w, i)
 	})
+}
+
+func gcd(a, b int) int {
+	for b != 0 {
+		a, b = b, a%b
+	}
+	return a
 }
